@@ -88,8 +88,43 @@ pub struct Fl2 { #[serde(flatten)] i: P2, o: Option<u8>, #[serde(flatten)] j: Wi
 #[derive(Serialize, Deserialize, Debug, Clone)] pub struct FlK { a: u8, #[serde(flatten)] i: InnerUS }
 #[derive(Serialize, Deserialize, Debug, Clone)] pub struct FlMK { a: u8, #[serde(flatten)] m: BTreeMap<String, US> }
 #[derive(Serialize, Deserialize, Debug, Clone)] pub struct FlMC { a: u8, #[serde(flatten)] m: BTreeMap<String, char> }
+// zero-copy fields below nodes that serde deserialises through deserialize_any + Content buffering
+#[derive(Serialize, Deserialize, Debug, Clone)] pub struct InnerB<'a> { #[serde(borrow)] s: &'a str, n: u8 }
+#[derive(Serialize, Deserialize, Debug, Clone)] #[serde(tag = "t")]
+pub enum IntB<'a> { S { #[serde(borrow)] s: &'a str, n: u8 }, U, N(#[serde(borrow)] InnerB<'a>) }
+#[derive(Serialize, Deserialize, Debug, Clone)] #[serde(tag = "t", content = "c")]
+pub enum AdjB<'a> { S(#[serde(borrow)] &'a str), U, N(#[serde(borrow)] InnerB<'a>) }
+#[derive(Serialize, Deserialize, Debug, Clone)] #[serde(untagged)]
+pub enum UntB<'a> { S { #[serde(borrow)] s: &'a str }, N(u8), R(#[serde(borrow)] &'a str) }
+#[derive(Serialize, Deserialize, Debug, Clone)] pub struct FlB<'a> { a: u8, #[serde(flatten, borrow)] i: InnerB<'a> }
 
 // ---- hand-written impls that call the Serializer / Deserializer methods no std type calls
+/// a type whose representation depends on is_human_readable() (as the std net types do): compact = newtype(u8), readable = decimal text
+#[derive(Debug, Clone)] pub struct Hr(u8);
+impl Serialize for Hr {
+    fn serialize<S: serde::Serializer>(&self, s: S) -> Result<S::Ok, S::Error> {
+        if s.is_human_readable() { s.serialize_str(&self.0.to_string()) } else { s.serialize_newtype_struct("Hr", &self.0) }
+    }
+}
+impl<'de> Deserialize<'de> for Hr {
+    fn deserialize<D: serde::Deserializer<'de>>(d: D) -> Result<Self, D::Error> {
+        struct V;
+        impl<'de> Visitor<'de> for V {
+            type Value = Hr;
+            fn expecting(&self, f: &mut fmt::Formatter) -> fmt::Result { f.write_str("Hr") }
+            fn visit_str<E: de::Error>(self, v: &str) -> Result<Hr, E> { v.parse().map(Hr).map_err(|_| E::custom("not a number")) }
+            fn visit_newtype_struct<D: serde::Deserializer<'de>>(self, d: D) -> Result<Hr, D::Error> { u8::deserialize(d).map(Hr) }
+        }
+        if d.is_human_readable() { d.deserialize_str(V) } else { d.deserialize_newtype_struct("Hr", V) }
+    }
+}
+impl Canon for Hr { fn parse(p: &mut P) -> Self { Hr(Canon::parse(p)) } fn show(&self) -> String { self.0.show() } }
+/// std::net::Ipv4Addr: [u8; 4] through serialize_tuple when the format is not human readable, dotted text otherwise
+#[derive(Serialize, Deserialize, Debug, Clone)] #[serde(transparent)] pub struct Ip4(std::net::Ipv4Addr);
+impl Canon for Ip4 {
+    fn parse(p: &mut P) -> Self { let a: [u8; 4] = Canon::parse(p); Ip4(a.into()) }
+    fn show(&self) -> String { self.0.octets().show() }
+}
 /// serialize_bytes / deserialize_byte_buf
 #[derive(Debug, Clone)] pub struct BytesBuf(Vec<u8>);
 impl Serialize for BytesBuf {
@@ -260,6 +295,41 @@ canon_struct!(InnerC { c });
 canon_struct!(InnerUS { k });
 canon_struct!(InnerE { e });
 canon_struct!(Fl { a, i, z });
+impl Canon for InnerB<'static> {
+    fn parse(p: &mut P) -> Self { let (s, n) = Canon::parse(p); InnerB { s, n } }
+    fn show(&self) -> String { l(vec![self.s.show(), self.n.show()]) }
+}
+impl Canon for FlB<'static> {
+    fn parse(p: &mut P) -> Self { let (a, i) = Canon::parse(p); FlB { a, i } }
+    fn show(&self) -> String { l(vec![self.a.show(), self.i.show()]) }
+}
+impl Canon for IntB<'static> {
+    fn parse(p: &mut P) -> Self {
+        let r = match vopen(p) {
+            0 => { let (s, n) = Canon::parse(p); IntB::S { s, n } }
+            1 => { punit(p); IntB::U }
+            _ => IntB::N(Canon::parse(p))
+        };
+        p.eat(b')'); r
+    }
+    fn show(&self) -> String {
+        match self { IntB::S { s, n } => vs(0, l(vec![s.show(), n.show()])), IntB::U => vs(1, "()".into()), IntB::N(a) => vs(2, a.show()) }
+    }
+}
+impl Canon for AdjB<'static> {
+    fn parse(p: &mut P) -> Self {
+        let r = match vopen(p) { 0 => AdjB::S(Canon::parse(p)), 1 => { punit(p); AdjB::U } _ => AdjB::N(Canon::parse(p)) };
+        p.eat(b')'); r
+    }
+    fn show(&self) -> String { match self { AdjB::S(a) => vs(0, a.show()), AdjB::U => vs(1, "()".into()), AdjB::N(a) => vs(2, a.show()) } }
+}
+impl Canon for UntB<'static> {
+    fn parse(p: &mut P) -> Self {
+        let r = match vopen(p) { 0 => { let (s,) = Canon::parse(p); UntB::S { s } } 1 => UntB::N(Canon::parse(p)), _ => UntB::R(Canon::parse(p)) };
+        p.eat(b')'); r
+    }
+    fn show(&self) -> String { match self { UntB::S { s } => vs(0, l(vec![s.show()])), UntB::N(a) => vs(1, a.show()), UntB::R(a) => vs(2, a.show()) } }
+}
 canon_struct!(Fl2 { i, o, j, w });
 canon_struct!(FlM { a, o, m });
 canon_struct!(FlU { a, u, b, c });
@@ -548,6 +618,7 @@ registry! {
     "Nested" => Nested; "Wide" => Wide; "Ext" => Ext; "Ext2" => Ext2; "Ext1" => Ext1; "ExtU" => ExtU;
     "InnerU" => InnerU; "InnerC" => InnerC; "InnerUS" => InnerUS; "InnerE" => InnerE;
     "Int" => Int; "IntF" => IntF; "Adj" => Adj; "Unt" => Unt; "UntF" => UntF;
+    "Hr" => Hr; "arr4(u8)" => Ip4; "InnerB" => InnerB<'static>; "IntB" => IntB<'static>; "AdjB" => AdjB<'static>; "UntB" => UntB<'static>; "FlB" => FlB<'static>;
     "Fl" => Fl; "Fl2" => Fl2; "FlM" => FlM; "FlU" => FlU; "FlF" => FlF; "FlFC" => FlFC; "FlK" => FlK; "FlMK" => FlMK; "FlMC" => FlMC;
     "opt(u8)" => Option<u8>; "opt(string)" => Option<String>; "opt(unit)" => Option<()>; "opt(opt(u8))" => Option<Option<u8>>, lossy;
     "opt(NTO)" => Option<NTO>, lossy; "opt(P2)" => Option<P2>; "opt(Ext)" => Option<Ext>; "opt(US)" => Option<US>;
